@@ -193,8 +193,17 @@ def enumerate_cases(tier, seed):
         if k not in seen and space.np_accepts(t) is not None:
             seen.add(k)
             hl.append({"fam": "hl:" + g, "outs": [["out", t]]})
-    core = [c for c in hl if c["fam"] == "hl:AxisPermutation"]
-    rest = [c for c in hl if c["fam"] != "hl:AxisPermutation"]
+    # fixed core: every axis permutation, and per node kind 30 parameter tuples spread evenly over its enumeration
+    bykind = {}
+    for c in hl:
+        bykind.setdefault(c["fam"], []).append(c)
+    core = list(bykind.get("hl:AxisPermutation", []))
+    for fam_, lst in sorted(bykind.items()):
+        if fam_ != "hl:AxisPermutation":
+            step = max(1, len(lst) // 30)
+            core += lst[::step][:30]
+    chosen_ = {T.tkey(c["outs"]) for c in core}
+    rest = [c for c in hl if T.tkey(c["outs"]) not in chosen_]
     if tier == "quick":
         rl = runner.slice_by_seed(rl, seed, 3)
         l2 = runner.slice_by_seed(l2, seed, 400)
